@@ -296,7 +296,8 @@ def check(run):
     try:
         # systematic part: thread B runs at every lock release of thread A's operation (checks/c07_preempt.py)
         open_findings = os.environ.get("VERIF_CONC_OPEN") == "1"
-        c07_preempt.stage(run, sys.modules[__name__], work, (1 if run.tier == "quick" else 12) * (1 if ok and not bad else 3), open_findings)
+        c07_preempt.stage(run, sys.modules[__name__], work, (1 if run.tier == "quick" else 40) * (1 if ok and not bad else 3), open_findings,
+                          all_b=run.tier != "quick")
         # sampled part: free-running threads
         cases = []
         for i in range(n):
@@ -332,7 +333,10 @@ def check(run):
                       rule="preemption explorer: (A operation, B operation) pairs x WAL on/off x every lock release of A as the point where B runs one "
                            "complete operation; distinct by (pair, WAL, k).  Sampled part: 2-4 threads x 2-5 calls (put/get/del/scan/sync/checkpoint) on 1-2 databases over 4 keys, WAL on/off; each execution is checked "
                            "for a linearisation consistent with program order (exact search) and for termination (30 s watchdog); distinct by program text",
-                      assumptions=["the kernel scheduler decides the interleavings actually seen: a run samples schedules, the theorem covers the lock skeleton",
+                      assumptions=["preemption explorer: context switches are placed at lock releases of ONE operation against ONE complete operation of a second "
+                                   "thread (two threads, one switch per execution); the section theorems are about the abstract model (sections atomic, "
+                                   "locations per database, allocator as a counter), tied to the code by the per-k stale-mapping prediction and the trace disciplines",
+                                   "the kernel scheduler decides the interleavings of the sampled part: a run samples schedules, the theorem covers the lock skeleton",
                                    "data races inside critical sections are outside the model (no TSan verdict is used, it reports benign counters)"])
 
 
